@@ -212,6 +212,8 @@ package op
 // two steps compose; the result does not depend on the spelling mid the intermediate member is read by,
 // dominant and subdominant undo each other, relative and parallel undo themselves
 //@ func lemmaC14Two returns (m2, ok)
+//@   enumerate first 1 5
+//@   enumerate second 1 5
 //@   requires wfCOF(c) && validConv(first) && validConv(second) && supported(key)
 //@   requires supported(mid) && mid.Minor == (key.Minor != flips(first)) && spec.fmod(ksemi(mid) - ksemi(key) - shift(first, key.Minor), 12) == 0
 //@   ensures ok
